@@ -32,11 +32,12 @@ it): such cases are skipped as ``unsupported`` and counted (``dask_raised_owned_
 Labels: ``<operation class>:<form>:<facet>`` e.g. ``groupby-agg:dict-spec:frame:meta-dtype``; for C36 pipelines the
 class is ``c36:<family of the last step of the shortest prefix that shows the facet>``.  Facets: meta-kind,
 meta-columns, meta-dtype, meta-name, meta-index-name, meta-index-dtype, public-columns, public-dtypes, public-name,
-public-index-name; a dtype facet carries the pair of dtype kinds, ``meta-dtype(str->int)``; the pair int/bool ->
-float/object is called ``meta-dtype(value-dependent-upcast)`` when the computed column really holds missing values
-(pandas upcast it because of them, a meta inferred from fake data cannot know; this one mechanism is labelled per
-top-level class only: ``merge:meta-dtype(value-dependent-upcast)``); the suffix ``@partition`` marks disagreements
-visible only in separately computed partitions.
+public-index-name; a dtype facet carries the two dtypes, ``meta-dtype(str->int64)``; it is called
+``meta-dtype(value-dependent)`` when pandas itself, run on the EMPTY input frame(s), reports the dtype the meta says and
+pandas on the full input reports the computed dtype (the meta is what pandas infers without data, the computed dtype is
+pandas' value-dependent upcast: int -> float when a NaN, a float replacement or an unmatched merge row actually appears); this one mechanism is labelled per top-level
+class only (``merge:meta-dtype(value-dependent)``, ``c36-elementwise:...``); the suffix ``@partition`` marks
+disagreements visible only in separately computed partitions.
 
 Calibration (unchanged tree)
 ----------------------------
@@ -130,50 +131,54 @@ def build_ops(cs, klass):
     return {"pdf": pdf, "ddf": ddf, "opdf": opdf, "oddf": oddf, "desc": desc, "kind": kind, "pdesc": pdesc, "odesc": odesc}
 
 
-def _dkind(name):
+def _dname(name):
     n = str(name)
-    for pre, k in (("int", "int"), ("uint", "int"), ("float", "float"), ("bool", "bool"), ("datetime", "datetime"),
-                   ("timedelta", "timedelta"), ("category", "category"), ("Int", "nullable"), ("Float", "nullable"),
-                   ("boolean", "nullable"), ("str", "str"), ("object", "str/object")):
-        if n.startswith(pre):
-            return k
-    return "other"
+    if n.startswith("datetime64"):
+        return "datetime64"
+    if n in ("object", "string"):
+        return "str"
+    return n
 
 
-def facet_of(m, val=None, parts=None):
-    """(facet, message) of meta_violation -> refined facet.
-
-    meta-dtype is refined with the pair of dtype kinds, e.g. ``meta-dtype(str->int)``.  The pair int/bool -> float/object
-    is called ``meta-dtype(value-dependent-upcast)`` when the computed column really holds missing values (pandas upcast
-    it because of them; a meta inferred from fake data cannot know)."""
+def _column_of(obj, msg):
+    """the computed / reference column a meta-dtype message talks about (None when it cannot be located)"""
     import pandas as pd
 
+    mc = re.search(r"column (.+?): meta ", msg)
+    if mc and isinstance(obj, pd.DataFrame):
+        cols = [i for i, c in enumerate(obj.columns) if repr(c) == mc.group(1)]
+        return obj.iloc[:, cols[0]] if cols else None
+    return obj if isinstance(obj, pd.Series) else None
+
+
+def facet_of(m, empty_ref=None, full_ref=None):
+    """(facet, message) of meta_violation -> refined facet.
+
+    meta-dtype carries the two dtypes, e.g. ``meta-dtype(str->int64)``.  It is called
+    ``meta-dtype(value-dependent)`` when pandas itself, run on the EMPTY input frame(s), reports the dtype the meta
+    says AND pandas on the full input reports the computed dtype: then the meta is what pandas infers without data and
+    the computed dtype is pandas' value-dependent upcast (int -> float when a NaN / a float replacement / an unmatched
+    merge row actually appears).  For a single partition: both dtypes are among those two pandas answers."""
     kind, msg = m
-    mp = re.match(r"partition (\d+): ", msg)
-    where = "@partition" if mp else ""
+    where = "@partition" if re.match(r"partition \d+: ", msg) else ""
     if kind == "meta-dtype":
         mm = re.search(r"meta (?:index dtype )?(\S+), computed (\S+)", msg)
         if mm:
-            a, b = _dkind(mm.group(1)), _dkind(mm.group(2))
+            a, b = _dname(mm.group(1)), _dname(mm.group(2))
             kind = "meta-dtype(%s->%s)" % (a, b)
-            if a in ("int", "bool") and b in ("float", "str/object"):
-                obj = val
-                if mp and parts is not None:
-                    obj = parts[int(mp.group(1))]
-                mc = re.search(r"column (.+?): meta ", msg)
-                try:
-                    if mc and isinstance(obj, pd.DataFrame):
-                        name = mc.group(1)
-                        cols = [c for c in obj.columns if repr(c) == name]
-                        ser = obj[cols[0]] if cols else None
-                        if isinstance(ser, pd.DataFrame):
-                            ser = ser.iloc[:, 0]
-                    else:
-                        ser = obj if isinstance(obj, pd.Series) else None
-                    if ser is not None and bool(pd.isna(ser).any()):
-                        kind = "meta-dtype(value-dependent-upcast)"
-                except Exception:  # noqa: BLE001
-                    pass
+            try:
+                e = _column_of(empty_ref, msg) if empty_ref is not None else None
+                f = _column_of(full_ref, msg) if full_ref is not None else None
+                e = _dname(e.dtype) if e is not None else None
+                f = _dname(f.dtype) if f is not None else None
+                if where:
+                    # a partition deviates from a meta that agrees with pandas (on no data or on all data)
+                    if a in (e, f) and b in (e, f):
+                        kind = "meta-dtype(value-dependent)"
+                elif e == a and f == b:
+                    kind = "meta-dtype(value-dependent)"
+            except Exception:  # noqa: BLE001
+                pass
     return kind + where
 
 
@@ -224,17 +229,17 @@ def observe(res):
     return val, parts
 
 
-def check(res, val, parts):
+def check(res, val, parts, empty_ref=None, full_ref=None):
     """-> (facet, message) | None"""
     from vf.gen import frames as F
 
     m = F.meta_violation(res, val, parts=())
     if m is not None:
-        return facet_of(m, val, parts), m[1]
+        return facet_of(m, empty_ref, full_ref), m[1]
     if parts:
         m = F.meta_violation(res, val, parts=parts)
         if m is not None:
-            return facet_of(m, val, parts), m[1]
+            return facet_of(m, empty_ref, full_ref), m[1]
     m = public_views_violation(res, val)
     if m is not None:
         return m
@@ -273,7 +278,7 @@ def run_case(case, ctx):
         if desc.get("need_known") and not ddf.known_divisions:
             return ctx.reject("program needs known divisions (documented)")
         try:
-            run(pdf, False, c["opdf"])
+            full_ref = run(pdf, False, c["opdf"])
         except CaseTimeout:
             raise
         except Exception as e:  # noqa: BLE001
@@ -291,6 +296,18 @@ def run_case(case, ctx):
             ctx.count("dask_raised_owned_by_other_property")
             return ctx.unsupported("dask raised %s (reported by the owning property)" % type(e).__name__)
         m = check(res, val, parts)
+        if m is not None and m[0].startswith("meta-dtype("):
+            # the same program in pandas on EMPTY inputs: what pandas infers without data
+            try:
+                o0 = c["opdf"].iloc[:0] if c.get("opdf") is not None else None
+                empty_ref = run(pdf.iloc[:0], False, o0)
+                m = check(res, val, parts, empty_ref, full_ref)
+            except CaseTimeout:
+                raise
+            except Exception:  # noqa: BLE001
+                empty_ref = None
+        else:
+            empty_ref = None
     ctx.count("meta_checked_results")
     ctx.count("meta_checked_partitions", len(parts or ()))
     ctx.count("empty_partitions_checked", sum(1 for p in (parts or ()) if hasattr(p, "__len__") and len(p) == 0))
@@ -321,6 +338,9 @@ def run_case(case, ctx):
                     r2 = run(ddf, True, c["oddf"], upto=j)
                     v2, p2 = observe(r2)
                     m2 = check(r2, v2, p2)
+                    if m2 is not None and m2[0].startswith("meta-dtype(") and facet.startswith("meta-dtype(value-dependent)"):
+                        o0 = c["opdf"].iloc[:0] if c.get("opdf") is not None else None
+                        m2 = check(r2, v2, p2, run(pdf.iloc[:0], False, o0, upto=j), run(pdf, False, c["opdf"], upto=j))
                 except CaseTimeout:
                     raise
                 except Exception:  # noqa: BLE001
@@ -332,7 +352,7 @@ def run_case(case, ctx):
         head = c36.expr_heads(desc["steps"][k - 1]) if fam.split(":")[0] in ("series", "filter", "assign") else None
         klass = "c36:%s%s" % (fam, "[%s]" % head if head and fam.split(":")[0] == "series" else "")
         detail["shortest_prefix"] = desc["steps"][:k]
-    if facet.startswith("meta-dtype(value-dependent-upcast)"):
+    if facet.startswith("meta-dtype(value-dependent)"):
         # one mechanism (meta inferred from fake data cannot know whether missing values will appear): per top-level class
         klass = "c36-elementwise" if case["src"] == "c36" else desc["class"]
     ctx.violation("%s:%s" % (klass, facet), msg, **detail)
